@@ -116,7 +116,7 @@ pub struct SchedResult {
 
 pub fn explore(w: &World, tier: Tier, chk: &Check) -> SchedResult {
     // thread program: update_raw(x); predict(P); [fill_tags]; a second round on another text
-    let valid_raw = [0usize, 1, 2];
+    let valid_raw = [0usize, 1, 2, 3, 4];
     let tagging: Vec<usize> = w.preds.iter().enumerate().filter(|(_, p)| p.predict_tags).map(|(i, _)| i).collect();
     let mut schedules = 0u64;
     let mut assignments = 0u64;
@@ -146,7 +146,7 @@ pub fn explore(w: &World, tier: Tier, chk: &Check) -> SchedResult {
     }
     // three threads x 3 calls sharing ONE predictor, all 1680 interleavings
     for &p in &tagging {
-        let texts: Vec<[usize; 3]> = tier.pick(vec![[0, 1, 2]], vec![[0, 1, 2], [2, 0, 0], [1, 1, 1], [2, 2, 0]]);
+        let texts: Vec<[usize; 3]> = tier.pick(vec![[0, 1, 2], [3, 4, 3]], vec![[0, 1, 2], [2, 0, 0], [1, 1, 1], [2, 2, 0], [3, 4, 3], [4, 3, 1]]);
         for xs in texts {
             let programs: Vec<Vec<Op>> = xs.iter().map(|&x| vec![Op::UpRaw(x), Op::Predict(p), Op::Fill]).collect();
             assignments += 1;
